@@ -208,6 +208,34 @@ Theorem C13_lru_cache_transparent : forall (R : Type) (f : pyval -> R) (calls : 
 Proof. exact lru_cache_transparent. Qed.
 Print Assumptions C13_lru_cache_transparent.
 
+(* ---- the size component of the key is a finite map index -> size ----------------------------- *)
+(* on the GENERATED key expressions: size_dict enters as tuple(size_dict.items()), i.e. as the (index, size)
+   pairs, in both caches *)
+Theorem C13_generated_size_component_is_items :
+  existsb (fun fw => String.eqb (fst fw) "size_dict" && view_eqb (snd fw) VItemsTuple) (all_fields expr_key_expr) = true /\
+  existsb (fun fw => String.eqb (fst fw) "size_dict" && view_eqb (snd fw) VItemsTuple) (all_fields path_key_expr) = true.
+Proof. split; vm_compute; reflexivity. Qed.
+Print Assumptions C13_generated_size_component_is_items.
+
+(* equal items components (Python ==) denote the same finite map: for every atomic index k,
+   size_dict1[k] and size_dict2[k] are both absent or both present and equal -- what the answer may
+   depend on.  (Two equal dicts in different key order get different keys: a miss, never a wrong hit.) *)
+Theorem C13_items_determine_binding : forall l m,
+  forallb item_ok l = true -> forallb item_ok m = true ->
+  pylist_eqb l m = true ->
+  forall k, simple k = true -> lookup_agree (dict_get l k) (dict_get m k).
+Proof. exact items_determine_binding. Qed.
+Print Assumptions C13_items_determine_binding.
+
+(* tuple(size_dict.values()) instead: {'a':2,'b':50,'c':3,'d':40} and {'b':2,'a':50,'d':3,'c':40} have the
+   same values component but bind `a` to 2 resp. 50; their items components differ *)
+Theorem C13_values_lose_binding :
+  py_eqb (values_of_items g16_items1) (values_of_items g16_items2) = true /\
+  ~ lookup_agree (dict_get g16_items1 (PStr [97%nat])) (dict_get g16_items2 (PStr [97%nat])) /\
+  py_eqb (PTuple g16_items1) (PTuple g16_items2) = false.
+Proof. exact values_lose_binding. Qed.
+Print Assumptions C13_values_lose_binding.
+
 (* ---- canonicalisation ------------------------------------------------------------------------ *)
 (* with canonicalize=True an injective (w.r.t. ==) relabelling of the indices yields the very same
    normalised call -- same key, same arguments handed to the computation: sharing the entry is right *)
